@@ -368,18 +368,24 @@ class _RootFinder(torch.autograd.Function):
 def _get_rootfinder_default_method(method):
     if method is None:
         return "broyden1"
+    elif isinstance(method, str):
+        return method.lower()  # method names are case-insensitive
     else:
         return method
 
 def _get_equilibrium_default_method(method):
     if method is None:
         return _get_rootfinder_default_method(method)
+    elif isinstance(method, str):
+        return method.lower()  # method names are case-insensitive
     else:
         return method
 
 def _get_minimizer_default_method(method):
     if method is None:
         return "broyden1"
+    elif isinstance(method, str):
+        return method.lower()  # method names are case-insensitive
     else:
         return method
 
